@@ -94,13 +94,19 @@ fn ignored_frame(rng: &Prng, w: &World, k: usize) -> Option<(String, &'static st
         5 | 6 => {
             // Sync / Follow_Up not sent by the selected parent (or to a port that is not slave at all)
             let other = CLOCKS.iter().map(|c| (*c, 1u16)).find(|(c, p)| format!("{}:{}", clock_hex(c), p) != parent)?;
+            // most of the time the sequence id matches the exchange that is pending on this port
+            let pending_seq = pv.last_sync.map(|x| x.1);
+            let seq = match pending_seq {
+                Some(q) if rng.chance(3, 4) => q,
+                _ => rng.next_u64() as u16,
+            };
             if choice == 5 {
-                let mut f = mk(0x0, other.0, other.1, rng.next_u64() as u16).with_ts_body(s, n);
+                let mut f = mk(0x0, other.0, other.1, seq).with_ts_body(s, n);
                 f.flags[0] = if rng.chance(1, 2) { 2 } else { 0 };
                 f.correction = if rng.chance(1, 4) { i64::MAX } else { 0 };
                 Some((format!("P{k} EVT {} {}", hex(&f.bytes()), now), if is_slave { "sync-not-from-parent" } else { "sync-to-non-slave" }))
             } else {
-                let mut f = mk(0x8, other.0, other.1, rng.next_u64() as u16).with_ts_body(s, n);
+                let mut f = mk(0x8, other.0, other.1, seq).with_ts_body(s, n);
                 f.correction = sub;
                 Some((format!("P{k} GEN {}", hex(&f.bytes())), if is_slave { "followup-not-from-parent" } else { "followup-to-non-slave" }))
             }
